@@ -1156,6 +1156,10 @@ fn merge(left_struct_array: &StructArray, right_struct_array: &StructArray) -> S
                 // if both fields are struct, merge them recursively
                 match (left_field.data_type(), right_field.data_type()) {
                     (DataType::Struct(_), DataType::Struct(_)) => {
+                        // A child row under a null struct row is null, whatever the child's
+                        // own buffers say
+                        let left_column = adjust_child_validity(left_column, left_validity);
+                        let right_column = adjust_child_validity(right_column, right_validity);
                         let left_sub_array = left_column.as_struct();
                         let right_sub_array = right_column.as_struct();
                         let merged_sub_array = merge(left_sub_array, right_sub_array);
@@ -1170,12 +1174,14 @@ fn merge(left_struct_array: &StructArray, right_struct_array: &StructArray) -> S
                         if left_list.data_type().is_struct()
                             && right_list.data_type().is_struct() =>
                     {
+                        let left_column = adjust_child_validity(left_column, left_validity);
                         // If there is nothing to merge just use the left field
                         if left_list.data_type() == right_list.data_type() {
                             fields.push(left_field.as_ref().clone());
-                            columns.push(left_column.clone());
+                            columns.push(left_column);
                             continue;
                         }
+                        let right_column = adjust_child_validity(right_column, right_validity);
                         // If we have two List<Struct> and they have different sets of fields then
                         // we can merge them if the offsets arrays are the same.  Otherwise, we
                         // have to consider it an error.
@@ -1282,10 +1288,14 @@ fn merge_with_schema(
                 columns.push(adjusted_column);
             }
             (Some(left_idx), Some(right_idx)) => {
+                // A child row under a null struct row is null, whatever the child's own
+                // buffers say
+                let left_column = adjust_child_validity(&left_columns[left_idx], left_validity);
+                let right_column = adjust_child_validity(&right_columns[right_idx], right_validity);
                 match field.data_type() {
                     DataType::Struct(child_fields) => {
-                        let left_sub_array = left_columns[left_idx].as_struct();
-                        let right_sub_array = right_columns[right_idx].as_struct();
+                        let left_sub_array = left_column.as_struct();
+                        let right_sub_array = right_column.as_struct();
                         let merged_sub_array =
                             merge_with_schema(left_sub_array, right_sub_array, child_fields);
                         output_fields.push(Field::new(
@@ -1296,14 +1306,8 @@ fn merge_with_schema(
                         columns.push(Arc::new(merged_sub_array) as ArrayRef);
                     }
                     DataType::List(child_field) => {
-                        let left_list = left_columns[left_idx]
-                            .as_any()
-                            .downcast_ref::<ListArray>()
-                            .unwrap();
-                        let right_list = right_columns[right_idx]
-                            .as_any()
-                            .downcast_ref::<ListArray>()
-                            .unwrap();
+                        let left_list = left_column.as_any().downcast_ref::<ListArray>().unwrap();
+                        let right_list = right_column.as_any().downcast_ref::<ListArray>().unwrap();
                         let merged_values = merge_list_child_values(
                             child_field.as_ref(),
                             left_list.trimmed_values(),
@@ -1321,11 +1325,11 @@ fn merge_with_schema(
                         columns.push(Arc::new(merged_list) as ArrayRef);
                     }
                     DataType::LargeList(child_field) => {
-                        let left_list = left_columns[left_idx]
+                        let left_list = left_column
                             .as_any()
                             .downcast_ref::<LargeListArray>()
                             .unwrap();
-                        let right_list = right_columns[right_idx]
+                        let right_list = right_column
                             .as_any()
                             .downcast_ref::<LargeListArray>()
                             .unwrap();
@@ -1346,11 +1350,11 @@ fn merge_with_schema(
                         columns.push(Arc::new(merged_list) as ArrayRef);
                     }
                     DataType::FixedSizeList(child_field, list_size) => {
-                        let left_list = left_columns[left_idx]
+                        let left_list = left_column
                             .as_any()
                             .downcast_ref::<FixedSizeListArray>()
                             .unwrap();
-                        let right_list = right_columns[right_idx]
+                        let right_list = right_column
                             .as_any()
                             .downcast_ref::<FixedSizeListArray>()
                             .unwrap();
@@ -1372,10 +1376,8 @@ fn merge_with_schema(
                     }
                     _ => {
                         output_fields.push(left_fields[left_idx].as_ref().clone());
-                        // For fields that exist in both, use left but adjust validity
-                        let adjusted_column =
-                            adjust_child_validity(&left_columns[left_idx], left_validity);
-                        columns.push(adjusted_column);
+                        // For fields that exist in both, use left (validity adjusted above)
+                        columns.push(left_column);
                     }
                 }
             }
@@ -1923,6 +1925,51 @@ mod tests {
         assert_eq!(width_values.value(0), 300);
         assert_eq!(width_values.value(1), 200);
         assert!(width_values.is_null(2)); // width is null when right struct was null
+    }
+
+    #[test]
+    fn test_merge_nested_struct_under_null_parent() {
+        // outer: [null, {inner: {x: 2}}] on the left, all valid on the right; the inner struct
+        // of the left is *valid* in row 0 although its parent is null there
+        let inner = |name: &str, v: Vec<i32>| {
+            StructArray::new(
+                Fields::from(vec![Field::new(name, DataType::Int32, true)]),
+                vec![Arc::new(Int32Array::from(v)) as ArrayRef],
+                None,
+            )
+        };
+        let outer = |inner: StructArray, validity: Option<Vec<bool>>| {
+            StructArray::new(
+                Fields::from(vec![Field::new("inner", inner.data_type().clone(), true)]),
+                vec![Arc::new(inner) as ArrayRef],
+                validity.map(|v| v.into()),
+            )
+        };
+        let left = outer(inner("x", vec![1, 2]), Some(vec![false, true]));
+        let right = outer(inner("y", vec![3, 4]), None);
+        for merged in [
+            merge(&left, &right),
+            merge_with_schema(
+                &left,
+                &right,
+                &Fields::from(vec![Field::new(
+                    "inner",
+                    DataType::Struct(Fields::from(vec![
+                        Field::new("x", DataType::Int32, true),
+                        Field::new("y", DataType::Int32, true),
+                    ])),
+                    true,
+                )]),
+            ),
+        ] {
+            assert_eq!(merged.null_count(), 0);
+            let inner = merged.column(0).as_struct();
+            assert_eq!(inner.null_count(), 0);
+            let x = inner.column_by_name("x").unwrap();
+            assert!(x.is_null(0), "x of a null left row must be null");
+            assert!(x.is_valid(1));
+            assert_eq!(inner.column_by_name("y").unwrap().null_count(), 0);
+        }
     }
 
     #[test]
